@@ -288,3 +288,62 @@ NAMES = ['k_parse_string_dq', 'k_parse_string_triple', 'k_parse_string_sq_ascii'
          'k_parse_string_sq_escape_nonascii', 'k_parse_string_never_mixes', 'k_user_flag_overrides',
          'k_default_flag_kept', 'k_undefined_flag_rejected', 'k_flag_value_is_data', 'k_dollar_form_expanded',
          'k_function_args_verbatim']
+
+
+# ---- strings passed through built-in templates (QL.Function / QL.Infix) stay data
+ARGS_DATA = r'''
+from compiler import universe as _u
+from common import sqlite3_logica as _s3
+
+NASTY = ['x{1}y', '{0}', '{1}', 'a{}b', '%s', '100%', '%(x)s', '$f {f}', '{left}', "it's", 'a' + chr(92) + 'b', '{right} {0} %d']
+TEMPLATES = [
+    ('T(Join([%(s)s, "b"], "-"));', lambda s: s + '-b'),
+    ('T(Join(["b", "c"], %(s)s));', lambda s: 'b' + s + 'c'),
+    ('T(%(s)s ++ "z");', lambda s: s + 'z'),
+    ('T("z" ++ %(s)s);', lambda s: 'z' + s),
+    ('T(Element([%(s)s, "q"], 0));', lambda s: s),
+    ('T(Element(["q", %(s)s], 1));', lambda s: s),
+    ('T(if %(s)s == %(s)s then %(s)s else "n");', lambda s: s),
+    ('T(Greatest(%(s)s, ""));', lambda s: s),
+    ('T(x) :- x in ["q", %(s)s], x != "q";', lambda s: s),
+    ('T(Like(%(s)s, "%%"));', lambda s: 1),
+    ('T(ToString(%(s)s));', lambda s: s),
+    ('T(Size([%(s)s, %(s)s]));', lambda s: 2),
+]
+
+
+def arg_is_data(si, ti):
+  s = NASTY[si]
+  tmpl, expect = TEMPLATES[ti]
+  text = '@Engine("sqlite");\n' + tmpl % dict(s='"' + s + '"') + '\n'
+  parse.TOO_MUCH = 'too much'
+  prog = _u.LogicaProgram(parse.ParseFile(text)['rule'])
+  prog.FormattedPredicateSql('T')
+  ex = prog.execution
+  con = _s3.SqliteConnect()
+  try:
+    cur = con.cursor()
+    for st in [ex.preamble] + list(ex.defines_and_exports):
+      if st.strip():
+        cur.executescript(st)
+    rows = cur.execute(ex.main_predicate_sql).fetchall()
+  finally:
+    con.close()
+  return rows == [(expect(s),)]
+
+
+def k_builtin_args_are_data(si: int, ti: int) -> bool:
+  """
+  pre: 0 <= si < len(NASTY) and 0 <= ti < len(TEMPLATES)
+  post: _
+  """
+  a = concretise(si, len(NASTY))
+  b = concretise(ti, len(TEMPLATES))
+  with untraced():
+    return arg_is_data(a, b)
+'''
+
+
+def args_data_source():
+  from .. import variants
+  return HEAD + variants.UNTRACED + ARGS_DATA, ['k_builtin_args_are_data']
